@@ -542,6 +542,21 @@ func (s *expSession) runOps1(i int, op plan.Op) {
 			break
 		}
 		s.env.Sleep(time.Duration(op.A))
+	case "emptydgram":
+		// somebody else's datagram without payload (a port scan, a keep-alive of another tool) arrives at
+		// the collector's UDP port: it is no message, and it is nobody's business but its sender's
+		if s.proto == "udp" {
+			if ip, port, ok := splitHostPort(s.addr); ok {
+				var c *simnet.UDPConn
+				var err error
+				Block("dial", func() { c, err = s.env.Net.DialUDP(&net.UDPAddr{IP: ip, Port: port}) })
+				if err == nil {
+					Block("write", func() { c.Write(nil) })
+					c.Close()
+					s.env.Count("fault.empty_datagram_from_a_stranger", 1)
+				}
+			}
+		}
 	case "cstall":
 		// the application behind the collector stops consuming for B ms (the caller runs that consumer)
 		if s.onConsumerStall != nil {
@@ -583,6 +598,17 @@ func (s *expSession) runOps(ops []plan.Op) {
 	for i, op := range ops {
 		s.runOps1(i, op)
 	}
+}
+
+func splitHostPort(addr string) (net.IP, int, bool) {
+	h, p, err := net.SplitHostPort(addr)
+	if err != nil {
+		return nil, 0, false
+	}
+	var port int
+	fmt.Sscan(p, &port)
+	ip := net.ParseIP(h)
+	return ip, port, ip != nil
 }
 
 func (s *expSession) closeExporter() {
